@@ -10,7 +10,7 @@ checks = {
  "C02": ("simmon", "exploration", "3 C02", "runtime monitoring: N-balance oracle with clamp accounting on every N sub-step and day of generated runs",
    "Holds on every N sub-step and day of the generated runs (residual minus clamp-created N <= tolerance), incl. deposition/irrigation input and the instability flag; the real transport routine is additionally run on copies of the live state with tillage-like mixed top-soil N and demand above the layers' content (uptake limit engaged); 12 % of the cases with automatic management; sampled inputs."),
  "C06": ("simmon", "exploration", "3 C06", "runtime monitoring: bound and finiteness assertions on the live state every day + NaN scan of result files",
-   "Every layer every day within [WP/3, FC + capillary increment]; every float of the run state finite; sampled inputs."),
+   "Every layer every day within [WP/3, FC + capillary increment], below 1 and not above the pore volume the layer had after input; every float of the run state finite; the real water routine is additionally run for whole days on copies of the live state with sub-step counts hostile to floating point (49, 93, 98 ...) and layers filled to pore volume; injected air-dry and nearly full states; sampled inputs."),
  "C07": ("simmon", "exploration", "3 C07", "runtime monitoring: pool/counter bookkeeping around every N-routine call, once-per-day crediting per sub-step, kernel calls of the real mineralisation routine",
    "Non-negativity, pool+counter conservation around mineralisation/tillage, fertiliser organic inputs equal the applied amounts, uptake/fixation credited only on sub-step 1; sampled inputs."),
  "C08": ("simmon", "exploration", "3 C08", "runtime monitoring: ET ordering / cap / root-zone assertions at the ET probe every day",
@@ -22,9 +22,9 @@ checks = {
  "C19": ("simmon", "exploration", "3 C19", "runtime monitoring: envelope assertion on every layer temperature every day + diffusion-number invariant",
    "Temperatures stay inside the running envelope of imposed boundary values; diffusion number <= 1/2 on every layer-day observed."),
  "C12": ("fnmon", "exploration", "3 C12", "runtime monitoring: exhaustive execution of the real date conversion functions against a calendar oracle (Go time package)",
-   "Exhaustive over the stated date range: all 72,684 dates x 4 formats x 4 separator variants x admissible century splits, text->number->text identity, consecutive numbering, day-of-year, leap years, inverse function."),
+   "Exhaustive over the stated date range: all 72,684 dates x 4 formats x 4 separator variants x admissible century splits (each text also with blanks / tabs around it), text->number->text identity, consecutive numbering, day-of-year, leap years, inverse function."),
  "C17": ("fnmon", "exploration", "3 C17", "runtime monitoring: the real calcHermesBatch and hermes2go binaries executed for every (lines, nodes, encoding) triple up to the bound; executed log ids recorded and checked for exactly-once",
-   "Exhaustive to the bound (quick L<=24,K<=26; thorough L<=60,K<=64; five encodings): ranges contiguous/disjoint/covering, count equals -size, every range executed by hermes2go -lines, each line id executed exactly once."),
+   "Exhaustive to the bound (quick L<=24,K<=26; thorough L<=60,K<=64; nine file shapes: LF / CRLF, blank lines, no final newline, one line of 5 kB / 40 kB, line ends on 32 KiB ... 256 KiB block boundaries): ranges contiguous/disjoint/covering, count equals -size, every range executed by hermes2go -lines, each line id executed exactly once."),
  "C20": ("simmon", "exploration", "3 C20", "runtime monitoring: groundwater level read at the probe on every simulated day compared with an independent interpolation / sinusoid; dense calls of the public interpolation function",
    "Level of every simulated day equals series value / linear interpolation / nearest end value, or the configured sinusoid within [min,max]; series entries aligned with the edges of the simulated period; function-level: nodes, neighbours of nodes, outside span, random interior days of generated series, queried in random order."),
  "C05": ("simmon", "exploration", "3 C05", "runtime monitoring: the result files written by real generated runs are parsed and compared record by record with an independent calendar / rotation oracle",
@@ -40,7 +40,7 @@ checks = {
  "C13": ("pairmon", "exploration", "3 C13", "runtime monitoring: differential paired runs of the real model on one generated project written in two encodings; result files compared byte for byte",
    "Eight pair kinds (crop classic/YAML/converter-binary YAML, soil, rotation, measurement txt/CSV, weather layouts 0/1/2, date formats); every shipped annual main crop file covered; 12 significant digits of daily state compared."),
  "C18": ("pairmon", "exploration", "3 C18", "runtime monitoring: differential paired runs of the real model, override on the batch line vs the same edit in a copied parameter folder; result files compared byte for byte",
-   "Every overridable base / per-stage / per-organ parameter x every shipped annual main crop file; valid values: override == file edit; out-of-range value or index: run == run without overrides."),
+   "Every overridable base / per-stage / per-organ parameter x every shipped annual main crop file; valid values: override == file edit; out-of-range value or index: run == run without overrides; an override naming a crop file that no crop of the run reads (classic and YAML names): run == run without overrides."),
  "C03": ("batchmon", "exploration", "3 C03", "runtime monitoring: Go race detector + event-trace checker + result-hash comparison over the real hermes2go binary under randomised schedules (concurrency, line order, GOMAXPROCS, injected delays); porcupine linearizability check of recorded file-pool histories",
    "Every line's result files equal its solo reference under every explored schedule (batches contain repeated lines, exact duplicates, lines that log while valid, custom crop codes, a numerically unstable project and configuration variants of one project), repeated solo runs reproduce, exactly one run_start/run_end per line in the trace, no race report, file-pool histories (files from a few bytes to 4 MiB, first-load storms) linearizable against a load-once model; the interleavings seen (max simultaneous runs, distinct completion orders) are reported."),
  "C11": ("batchmon", "fault_enumeration", "3 C11", "runtime monitoring: fault enumeration (reported-error class x position x concurrency) over the real hermes2go binary with race detector, trace checker and result-hash comparison; bounded-progress monitor on logical steps for termination",
